@@ -150,6 +150,12 @@ def accounting(case):
         elif kind == "async":
             p = Local(ctx).run("echo hi", asynchronous=True, pty=pty)
             p.join()
+        elif kind == "async_fail":
+            p = Local(ctx).run("exit 3", asynchronous=True, pty=pty, timeout=30)
+            p.join()
+        elif kind == "async_timeout":
+            p = Local(ctx).run("sleep 5", asynchronous=True, pty=pty, timeout=0.05)
+            p.join()
         elif kind == "stdin":
             Local(ctx).run("cat", hide=True, in_stream=io.StringIO("abc\n"), pty=False)
         elif kind == "nostart":
@@ -166,8 +172,13 @@ def accounting(case):
         except Failure:
             pass
     dt = time.time() - t
+    # let cancelled Timer threads and finished workers actually end before counting (they keep the
+    # runner - and with it the Popen pipe objects - alive until they exit), then collect twice
+    t_wait = time.time()
+    while time.time() - t_wait < 1.0 and threading.active_count() > t0:
+        time.sleep(0.01)
     gc.collect()
-    time.sleep(0.05)
+    gc.collect()
     f1, t1, z = fds(), threading.active_count(), zombies()
     timers = [th for th in threading.enumerate() if isinstance(th, threading.Timer) and th.is_alive()]
     info = {"fds": (f0, f1), "threads": (t0, t1), "zombies": z, "timers": len(timers), "ms_per_run": round(1000 * dt / n, 1)}
@@ -260,8 +271,8 @@ def run(ctx):
     n = 60 if (ctx.thorough or ctx.escalated) else 12
     acct = {}
     for pty in (False, True):
-        for kind in ("exit0", "exit3", "raise3", "timeout", "output", "async") + (("stdin", "nostart") if not pty else ()):
-            c = {"acct": kind, "pty": pty, "n": max(3, n // 4) if kind in ("timeout", "output") else n}
+        for kind in ("exit0", "exit3", "raise3", "timeout", "output", "async", "async_fail", "async_timeout") + (("stdin", "nostart") if not pty else ()):
+            c = {"acct": kind, "pty": pty, "n": max(3, n // 4) if kind in ("timeout", "output", "async_timeout") else n}
             out.case(c, True)
             out.hist["acct:" + kind] += 1
             try:
